@@ -239,8 +239,11 @@ class Tifa(TifaCore, ast.NodeVisitor):
                 # if not is_subtype(target_type, old_type):
                     # self._issue(type_changes(self.locate(), 'an element of NODE', old_type.singular_name, elt_type.singular_name))
                 self.assign_target(starred[0], target_type)
+                if isinstance(target_type, TupleType) and isinstance(target_type.element_types, (tuple, list)):
+                    # The names after the star take the LAST elements of a finite tuple
+                    remaining = list(target_type.element_types)[len(leading):]
+                    tt = iter(remaining[max(0, len(remaining) - len(trailing)):])
                 for elt, elt_type, old_type in zip(trailing, tt, ot):
-                    # BUG: Any trailing elements will be incorrectly offset, so won't work with finite length stuff
                     self.assign_target(elt, elt_type)
         elif isinstance(target, ast.Subscript):
             original_value_type = self.visit(target.value)
